@@ -921,6 +921,14 @@ func (f *Frame) mergeStates(es []inEdge) *State {
 		}
 	}
 	n.epoch = maxEpoch
+	for _, e := range es {
+		if e.st.gepoch != es[0].st.gepoch {
+			sameEpoch = false
+		}
+		if e.st.gepoch > n.gepoch {
+			n.gepoch = e.st.gepoch
+		}
+	}
 	keys := map[string]bool{}
 	if sameEpoch {
 		for _, e := range es {
@@ -1124,7 +1132,15 @@ func (f *Frame) enterLoop(b *ssa.BasicBlock, ord int, st *State, reach Term) int
 		}
 	} else {
 		bases := f.loopBases(f.loopBody[b])
+		heapAll := comps["*heap"]
+		delete(comps, "*heap")
+		if heapAll {
+			c.havocHeap(st)
+		}
 		for _, k := range sortedKeys(comps) {
+			if heapAll && !strings.HasPrefix(k, "X|") {
+				continue
+			}
 			cb := bases[k]
 			s := c.compSort[k]
 			if cb == nil || cb.unknown || !strings.HasPrefix(string(s), "(Array Int ") {
@@ -1396,6 +1412,7 @@ func (f *Frame) envAt(st *State, b *ssa.BasicBlock, idx int) *Env {
 		env.vars[k] = v
 	}
 	env.local = func(name string, s *State) (Val, bool) { return f.lookupLocal(name, b, idx, s, nil) }
+	env.shadow = f.paramNames()
 	env.res = f.resLookup
 	return env
 }
@@ -1413,7 +1430,16 @@ func (f *Frame) envAtHeader(st *State, h *ssa.BasicBlock, phis map[*ssa.Phi]Term
 		nphi = i + 1
 	}
 	env.local = func(name string, s *State) (Val, bool) { return f.lookupLocal(name, h, nphi, s, phis) }
+	env.shadow = f.paramNames()
 	return env
+}
+
+func (f *Frame) paramNames() map[string]bool {
+	m := map[string]bool{}
+	for _, p := range f.fn.Params {
+		m[p.Name()] = true
+	}
+	return m
 }
 
 // lookupLocal finds the SSA value that holds source variable `name` at (b, idx).
